@@ -849,6 +849,17 @@ def redis_pairs(W, cap):
 
 def c12(W, replay=None):
     W.build()
+    if replay:
+        rs = [json.loads(l) for l in open(os.path.join(replay, "scenario.ndjson")) if l.strip()]
+        if rs and rs[0].get("conc"):
+            # a concurrent history: the schedule is not reproducible, the same operations are run concurrently again (a few times)
+            lv = linearizability(W, 0, given=rs * 50)
+            idx = lv.pop("index")
+            return judge("C12", W, [lv], idx, traces=len(rs) * 50, samples=[{"scenario": rs[0]}])
+        if rs and "schedule" in rs[0]:
+            trace = W.drive("TestRedisPair", rs, "redispair")
+            v = W.validate(trace, "redispair", module="RedisPairTrace")
+            return judge("C12", W, [v], {r["id"]: r for r in rs}, traces=len(rs), samples=[{"scenario": rs[0]}])
     scen = [] if replay else store_scenarios(W, 600) + store_random(W, 1500 if W.tier == "thorough" else 150, 80)
     v, index, trace = store_pipeline("C12", W, scen, replay)
     vs = [v]
@@ -937,10 +948,11 @@ def timeout_system_scenarios(W):
     return res
 
 
-def linearizability(W, n):
+def linearizability(W, n, given=None):
     """Concurrent histories of the in-memory store (3 goroutines x 3 calls, the clock hook widens race windows), judged by LinTrace.tla."""
     rnd = random.Random(W.seed * 7877 + 1)
-    scen = []
+    scen = [dict(g, id="%s#%d" % (g["id"], i)) for i, g in enumerate(given or [])]
+    n = n if not given else 0
     for k in range(n):
         ops = []
         for thr in range(3):
@@ -959,6 +971,7 @@ def linearizability(W, n):
     r = json.load(open(outf))
     W.tlc_states += dist
     W.tlc_transitions += gen
+    n = len(scen)
     v = {"viol": [], "fired": {"linearizabilityHistories": n}, "drift": [], "index": {s_["id"]: s_ for s_ in scen}}
     if r["consumed"] < r["len"]:
         # find the history in which the search got stuck
